@@ -290,7 +290,7 @@ def run(tier, seed, only=None):
                           "harness B: every statement tree with the stated node counts containing a break/continue (exhaustive, concrete). "
                           "Non-trivial = a query mentioning d was discharged, or a tree with a break/continue was compiled")
     chk.bounds = {"A": "loop depth d >= 0 unbounded; node kinds: " + ", ".join(KINDS),
-                  "B": f"statement trees with 1..{5 if tier == 'quick' else 7} nodes over break, continue, expression, block, if, if/else, for, while, do",
+                  "B": f"statement trees with 1..{5 if tier == 'quick' else 7} nodes over break, continue, return, expression, block, if, if/else, for, while, do" + ("" if tier == "quick" else " (all trees up to 6 nodes, 22 of 64 enumeration shards of the 7-node trees)"),
                   "semantics": "the loop programs of the scalar core set (every loop form x break / continue / both / nested in if; every nesting of two loop forms with break or continue "
                                "in the inner and in the outer loop) on the real VM with symbolic inputs against the reference interpreter",
                   "outside": "switch (not in the grammar); the induction over tree depth is a paper argument"}
@@ -299,7 +299,8 @@ def run(tier, seed, only=None):
     insts = [dict(part="step", kind=k) for k in KINDS]
     for n in range(1, (5 if tier == "quick" else 7) + 1):
         of = 1 if n <= 4 else (16 if n <= 6 else 64)
-        insts += [dict(part="trees", nodes=n, shard=s, of=of) for s in range(of)]
+        # 7 nodes: about a million trees since `return` is a leaf; every third shard (a 3/8 sample by position in the enumeration)
+        insts += [dict(part="trees", nodes=n, shard=s, of=of) for s in (range(of) if n < 7 else range(0, of, 3))]
     from ..gen import core1
     from . import famcheck
     insts += [dict(part="semantics", item=famcheck.pack(it)) for it in core1.loops()]
